@@ -28,6 +28,7 @@ type OpenPlan struct {
 
 type diskFile struct {
 	plans []OpenPlan
+	rest  *OpenPlan // plan of every open beyond the listed ones (nil: plain)
 	opens atomic.Int32
 }
 
@@ -113,6 +114,16 @@ func NewDisk(r *Run, ctl *Ctl) *Disk {
 	return &Disk{files: map[string]*diskFile{}, ctl: ctl}
 }
 
+// PlanRest sets the plan of every open of base beyond the explicitly planned ones.
+func (d *Disk) PlanRest(base string, p OpenPlan) {
+	f := d.files[base]
+	if f == nil {
+		f = &diskFile{}
+		d.files[base] = f
+	}
+	f.rest = &p
+}
+
 // Plan must be called before the run starts.
 func (d *Disk) Plan(base string, ordinal int, p OpenPlan) {
 	f := d.files[base]
@@ -133,10 +144,15 @@ func (d *Disk) wrap(path string, f *os.File) io.Reader {
 		return nil
 	}
 	n := int(df.opens.Add(1)) - 1
-	if n >= len(df.plans) {
+	var p OpenPlan
+	switch {
+	case n < len(df.plans):
+		p = df.plans[n]
+	case df.rest != nil:
+		p = *df.rest
+	default:
 		return nil
 	}
-	p := df.plans[n]
 	if len(p.Chunks) == 0 && p.ErrAt < 0 && !p.Gate {
 		return nil
 	}
